@@ -37,6 +37,14 @@ def plan(tier, seed):
         for (delays, est) in (([0.3, 0.1], 0.3), ([0.3, 0.1], 0.7), ([0.1, 0.2], 0.1), ([0, 0], 0.25), ([0, 0], 4)):
             for size in ((2, 4) if quick else (1, 2, 3, 4, 6)):
                 cfgs.append(dict(kind="e2e", cc=cc, delays=delays, est=est, size=size, K=12 if quick else 16))
+    # an initial RTO a hair (2^-23 s) above the RTT: nothing may be retransmitted on a loss-free path
+    for cc in ("reno", "cubic"):
+        for size in (1, 2, 4):
+            cfgs.append(dict(kind="e2e", cc=cc, delays=[1, 1], est=1 + 2.0 ** -24, size=size, K=6))
+    # two connections side by side in one program (state shared between senders would couple them)
+    for cc in ("reno", "cubic"):
+        for size in ((2, 4) if quick else (2, 3, 4, 6)):
+            cfgs.append(dict(kind="e2e", cc=cc, delays=[1, 1], est=0.5, size=size, K=8 if quick else 12, twin=1))
     return {"cfgs": cfgs, "budget": 3 if quick else 4,
             "bound": "sink: sequences of <=%d segments; end to end: flows of 1..%d MSS, path delays (1,1),(1,3),(3,5),(.3,.1),(.1,.2),(0,0), initial RTT estimate .1/.25/.3/.5/.7/4, "
                      "<=%d faults (drop, or delivery delayed by 4) among the first %d data / ACK transmissions" % (6 if quick else 7, 6 if quick else 8, 3 if quick else 4, 12 if quick else 20)}
@@ -147,6 +155,24 @@ def exec_e2e(ch, cfg):
         sender.out = data
         sink.out = ack
         data.rto = lambda: sender.rto
+        if cfg.get("twin"):
+            # a second, loss-free connection of the same size running concurrently
+            flow2 = Flow(flow_id=1, src="s2", dst="d2", start_time=0, finish_time=10 ** 9, size=size)
+            sender2 = TCPPacketGenerator(env, flow=flow2, cc=TCPReno() if cfg["cc"] == "reno" else TCPCubic(), element_id="s2", rtt_estimate=cfg["est"])
+            sink2 = TCPSink(env)
+
+            class Plain:
+                def __init__(self, dst, d):
+                    self.dst = dst; self.d = d
+
+                def put(self, pkt):
+                    env.process(self.go(pkt))
+
+                def go(self, pkt):
+                    yield env.timeout(self.d)
+                    self.dst.put(pkt)
+            sender2.out = Plain(sink2, cfg["delays"][0])
+            sink2.out = Plain(sender2, cfg["delays"][1])
         steps = 0
         while env.peek() < INF and env.peek() <= 4000 and steps < 20000:
             env.step()
@@ -163,6 +189,9 @@ def exec_e2e(ch, cfg):
         res.bad("C16.noraise", "%s:%s@%s" % (tag, err[0], err[1]), "%s; drops %r; %d transmissions" % (err[2], [(x[0], x[1]) for x in drops], len(log)))
         return res
     res.ev("C16.complete")
+    if cfg.get("twin") and ([list(x) for x in sink2.recv_buffer] != [[0, size]] or sender2.last_ack != size):
+        res.bad("C16.complete", "%s:second-concurrent-connection-incomplete" % tag, "sink2 %r last_ack %r" % (sink2.recv_buffer, sender2.last_ack))
+        return res
     held = [list(x) for x in sink.recv_buffer]
     done = held == [[0, size]] and sender.last_ack == size
     if not done:
